@@ -632,3 +632,183 @@ func genSeparatorCollision(r *rng) *Model {
 	m.Types = append(m.Types, par, doc)
 	return m
 }
+
+// ---------------------------------------------------------------------------
+// size and depth families: thresholds and capacities that small models never
+// reach (nesting deeper than 16, paths longer than 100 edges, more than 32
+// types or 12 relations, long call histories).
+
+// genDeepNesting: one relation whose rewrite is nested 10-40 operators deep.
+func genDeepNesting(r *rng) *Model {
+	m := &Model{Schema: "1.1"}
+	m.Types = append(m.Types, &Type{Name: "user"}, &Type{Name: "employee"})
+	doc := &Type{Name: "doc"}
+	doc.Relations = append(doc.Relations,
+		&Relation{Name: "b", Expr: &Expr{Kind: KThis}, Direct: []Ref{{Type: "user"}, {Type: "employee"}}},
+		&Relation{Name: "c", Expr: &Expr{Kind: KThis}, Direct: []Ref{{Type: "user"}}})
+	depth := 10 + r.intn(31)
+	ops := []string{KUnion, KUnion, KInter, KExcl}
+	leaf := func() *Expr { return &Expr{Kind: KComputed, Rel: []string{"b", "c"}[r.intn(2)]} }
+	e := leaf()
+	for i := 0; i < depth; i++ {
+		op := ops[r.intn(len(ops))]
+		if r.chance(50) {
+			e = &Expr{Kind: op, Children: []*Expr{e, leaf()}}
+		} else {
+			e = &Expr{Kind: op, Children: []*Expr{leaf(), e}}
+		}
+	}
+	rel := &Relation{Name: "deep", Expr: e}
+	if r.chance(40) {
+		// direct assignment in first position all the way down (DSL expressible)
+		rel.Expr = &Expr{Kind: KUnion, Children: []*Expr{{Kind: KThis}, e}}
+		rel.Direct = []Ref{{Type: "user"}}
+	}
+	doc.Relations = append(doc.Relations, rel)
+	m.Types = append(m.Types, doc)
+	return m
+}
+
+// genLongChain: a chain of 90-160 relations (computed, with a few TTU and
+// userset hops): simple paths longer than 100 edges.
+func genLongChain(r *rng) *Model {
+	m := &Model{Schema: "1.1"}
+	m.Types = append(m.Types, &Type{Name: "user"})
+	doc := &Type{Name: "doc"}
+	doc.Relations = append(doc.Relations, &Relation{Name: "parent", Expr: &Expr{Kind: KThis}, Direct: []Ref{{Type: "doc"}}})
+	n := 90 + r.intn(71)
+	name := func(i int) string { return fmt.Sprintf("r%03d", i) }
+	for i := 0; i < n; i++ {
+		rel := &Relation{Name: name(i)}
+		switch {
+		case i == n-1:
+			rel.Expr = &Expr{Kind: KThis}
+			rel.Direct = []Ref{{Type: "user"}}
+		case r.chance(5):
+			rel.Expr = &Expr{Kind: KTTU, Rel: name(i + 1), Tupleset: "parent"}
+		case r.chance(5):
+			rel.Expr = &Expr{Kind: KThis}
+			rel.Direct = []Ref{{Type: "doc", Rel: name(i + 1)}}
+		case r.chance(10):
+			rel.Expr = &Expr{Kind: KUnion, Children: []*Expr{{Kind: KComputed, Rel: name(i + 1)}, {Kind: KComputed, Rel: name(n - 1)}}}
+		default:
+			rel.Expr = &Expr{Kind: KComputed, Rel: name(i + 1)}
+		}
+		doc.Relations = append(doc.Relations, rel)
+	}
+	m.Types = append(m.Types, doc)
+	return m
+}
+
+// genManyTypes: 33-100 type definitions, most of them tiny.
+func genManyTypes(r *rng) *Model {
+	m := &Model{Schema: "1.1"}
+	m.Types = append(m.Types, &Type{Name: "user"})
+	n := 33 + r.intn(68)
+	for i := 0; i < n; i++ {
+		t := &Type{Name: fmt.Sprintf("t%03d", (i*37)%n)}
+		if m.typeByName(t.Name) != nil {
+			t.Name = fmt.Sprintf("u%03d", i)
+		}
+		for j := 0; j < r.intn(3); j++ {
+			rel := &Relation{Name: []string{"a", "b", "c"}[j], Expr: &Expr{Kind: KThis}, Direct: []Ref{{Type: "user"}}}
+			if j > 0 && r.chance(50) {
+				rel.Expr = &Expr{Kind: KUnion, Children: []*Expr{{Kind: KThis}, {Kind: KComputed, Rel: "a"}}}
+			}
+			t.Relations = append(t.Relations, rel)
+		}
+		m.Types = append(m.Types, t)
+	}
+	return m
+}
+
+// genOddNames: the separator-collision idea with characters only the JSON /
+// protobuf form can carry in a name (validation allows everything but
+// ':', '#', '@' and whitespace): "a,b" next to "a" and "b", as types, public
+// types and relations.
+func genOddNames(r *rng) *Model {
+	sep := []string{",", "|", ";", "+", "=", "$", "~", "!"}[r.intn(8)]
+	a, b := "a", "b"
+	if r.chance(40) {
+		a, b = "Repo", "Role" // upper case, prefixes of library-internal markers such as "R#"
+	}
+	ab := a + sep + b
+	m := &Model{Schema: "1.1"}
+	for _, n := range []string{a, b, ab} {
+		m.Types = append(m.Types, &Type{Name: n})
+	}
+	pub := func(names ...string) []Ref {
+		var out []Ref
+		for _, n := range names {
+			out = append(out, Ref{Type: n, Wild: r.chance(70)})
+		}
+		return out
+	}
+	doc := &Type{Name: []string{"doc", "R", "Repo"}[r.intn(3)]}
+	if m.typeByName(doc.Name) != nil {
+		doc.Name = "doc"
+	}
+	doc.Relations = append(doc.Relations,
+		&Relation{Name: "x", Expr: &Expr{Kind: KThis}, Direct: pub(a, b)},
+		&Relation{Name: "y", Expr: &Expr{Kind: KThis}, Direct: pub(ab)},
+		&Relation{Name: "z", Expr: &Expr{Kind: []string{KUnion, KInter}[r.intn(2)], Children: []*Expr{{Kind: KComputed, Rel: "x"}, {Kind: KComputed, Rel: "y"}}}},
+		&Relation{Name: "w", Expr: &Expr{Kind: KUnion, Children: []*Expr{{Kind: KThis}, {Kind: KComputed, Rel: "x"}}}, Direct: []Ref{{Type: doc.Name, Rel: "w"}, {Type: ab, Wild: true}}},
+		&Relation{Name: "member", Expr: &Expr{Kind: KUnion, Children: []*Expr{{Kind: KThis}, {Kind: KComputed, Rel: "owner"}}}, Direct: []Ref{{Type: a}, {Type: doc.Name, Rel: "owner"}}},
+		&Relation{Name: "owner", Expr: &Expr{Kind: KUnion, Children: []*Expr{{Kind: KThis}, {Kind: KComputed, Rel: "x"}}}, Direct: []Ref{{Type: b, Wild: true}, {Type: doc.Name, Rel: "member"}}})
+	m.Types = append(m.Types, doc)
+	return m
+}
+
+// injectAliasing makes the protobuf rendering share messages: one relation's
+// rewrite IS another relation's rewrite, or an operand IS its previous sibling.
+// The content of the model does not change (the plan repeats the content).
+func injectAliasing(r *rng, m *Model) bool {
+	done := false
+	for _, t := range m.Types {
+		var ops []*Relation
+		for _, rel := range t.Relations {
+			if rel.Expr != nil && rel.Expr.isOp() {
+				ops = append(ops, rel)
+			}
+		}
+		if len(ops) > 0 && len(t.Relations) >= 2 && r.chance(60) {
+			src := ops[r.intn(len(ops))]
+			dst := t.Relations[r.intn(len(t.Relations))]
+			if dst != src && dst.ShareWith == "" && src.ShareWith == "" {
+				shared := false
+				for _, o := range t.Relations {
+					if o.ShareWith == dst.Name {
+						shared = true
+					}
+				}
+				if !shared {
+					dst.Expr = src.Expr.clone()
+					dst.Direct = append([]Ref(nil), src.Direct...)
+					dst.ShareWith = src.Name
+					done = true
+				}
+			}
+		}
+		for _, rel := range t.Relations {
+			var rec func(e *Expr)
+			rec = func(e *Expr) {
+				if e == nil {
+					return
+				}
+				if (e.Kind == KUnion || e.Kind == KInter) && len(e.Children) >= 2 && r.chance(25) {
+					i := 1 + r.intn(len(e.Children)-1)
+					if e.Children[i-1].Kind != KThis {
+						e.Children[i] = e.Children[i-1].clone()
+						e.Children[i].Dup = true
+						done = true
+					}
+				}
+				for _, c := range e.Children {
+					rec(c)
+				}
+			}
+			rec(rel.Expr)
+		}
+	}
+	return done
+}
